@@ -61,7 +61,13 @@ def lookup_sites(prog, rep, floor=2):
         cdefs = prov.Defs(cbody)
         pcs = [(cb, ct) for cb, ct in cbody.calls() if ct["callee"] and ct["callee"]["path"] == PCMP]
         if len(pcs) != 1:
-            rep.ob("L3-comparator", inst, False, "closure must call %s exactly once (found %d)" % (PCMP, len(pcs)), cbody.where())
+            # not the literal idiom: judge what the comparator computes instead (semantic fallback)
+            res = semantic_lookup_sites(prog, rep, [b]).get(b.id)
+            if not res:
+                rep.ob("L3-comparator", inst, False, "the comparator is not `entry.partial_cmp(&key).unwrap()` and the search site was not reached by the semantic fallback", cbody.where())
+            else:
+                errs = [r for r in res if r]
+                rep.ob("L3-comparator", inst + " (semantic)", not errs, "; ".join(sorted(set(errs))[:2]), cbody.where(), key="L3-comparator|%s" % inst)
             continue
         ct = pcs[0][1]
         recv = prov.operand_origin(cbody, ct["args"][0], cdefs)
@@ -164,3 +170,216 @@ def exact_lookup(outs, arg_name, arg_ty, rows, default, decode):
     if miss != -1 and not (arg_ty == "char" and 0xD800 <= miss <= 0xDFFF):
         return "no path covers U+%04X" % miss
     return None
+
+
+# ------------------------------------------------------------------ L3, semantic: what a comparator closure computes
+CPS_TY = "precis_core::Codepoints"
+RANGE_INCL = "core::ops::range::RangeInclusive"
+
+
+def comparator_semantics(prog, clo_value, caller_machine, caller_state, elem_ty):
+    """Evaluate a binary-search comparator closure on symbolic table entries — Single(c), Range(s, e) — against
+    the captured key it closes over. Two integer atoms are related only through an order oracle (<, =, >), so
+    the paths enumerate every relative order; on each, the closure must answer Less iff the entry lies
+    entirely below the key (end < key), Greater iff entirely above (start > key), Equal otherwise: the
+    orientation binary_search_by needs. Returns None (ok) or an error text; raises AnalysisError when the
+    closure cannot be followed."""
+    import itertools
+
+    from .. import interp as ip
+    from ..interp import Adt, AnalysisError, I, Ref, Sym, Tup
+    from ..worlds import OracleWorld
+
+    v = clo_value
+    if isinstance(v, Ref):
+        v = caller_machine.load(caller_state, v.loc)
+    if not isinstance(v, ip.Clo):
+        raise AnalysisError("comparator is %r, not a closure" % (v,))
+    body = prog.body(v.defpath)
+    if body is None:
+        raise AnalysisError("closure body %s not exported" % v.defpath)
+    # captures: resolve references into the caller's frames to plain values (the nested run has its own frames)
+    caps = []
+    key_syms = []
+    for c in v.captures:
+        cv = c
+        depth = 0
+        while isinstance(cv, Ref) and cv.loc[0] != "val" and depth < 4:
+            inner = caller_machine.load(caller_state, cv.loc)
+            cv = Ref(("val", inner)) if not isinstance(inner, Ref) else inner
+            depth += 1
+        caps.append(cv)
+        x = cv.loc[1] if isinstance(cv, Ref) and cv.loc[0] == "val" else cv
+        if isinstance(x, (Sym, I)) and getattr(x, "ty", "") in ("u32", "char"):
+            key_syms.append(x)
+    if len(key_syms) != 1:
+        raise AnalysisError("the comparator closes over %d integer values: which one is the searched key is not evident" % len(key_syms))
+    key = key_syms[0]
+    clo = ip.Clo(v.defpath, tuple(caps))
+    ety = elem_ty.strip()
+    problems = []
+    for shape in ("single", "range"):
+        if shape == "single":
+            entry = Adt(CPS_TY, 0, (Sym("e_c", "u32"),))
+            lo = hi = "e_c"
+        else:
+            entry = Adt(CPS_TY, 1, (Adt(RANGE_INCL, 0, (Sym("e_s", "u32"), Sym("e_e", "u32"), ip.boolean(False))),))
+            lo, hi = "e_s", "e_e"
+        if ety in (CPS_TY, "&" + CPS_TY):
+            elem = entry
+        elif ety.startswith("(") and ety.endswith(")"):
+            from .. import types as ty_
+
+            parts = ty_.split_top(ety[1:-1])
+            if not parts or parts[0] != CPS_TY:
+                raise AnalysisError("table element type %s" % ety)
+            elem = Tup(tuple([entry] + [ty_.fresh(prog, t, ("elem", i)) for i, t in enumerate(parts[1:], 1)]))
+        else:
+            raise AnalysisError("table element type %s" % ety)
+        w = OracleWorld(prog)
+        m = ip.Machine(prog, w)
+        sub = ip.State()
+        sub.nuid = 70_000
+        fr = ip.Frame(body, sub.fresh())
+        first_ty = body.locals[1]["ty"]
+        fr.locals[1] = Ref(("val", clo)) if first_ty.startswith("&") else clo
+        fr.locals[2] = Ref(("val", elem))
+        sub.frames.append(fr)
+        outs = m.run(sub, max_paths=400)
+        for o in outs:
+            if o.kind != "return" or not (isinstance(o.value, Adt) and o.value.ty == ip.ORDERING):
+                problems.append("on a %s entry the comparator ends with %s %r" % (shape, o.kind, o.value if o.kind == "return" else o.info))
+                continue
+            got = o.value.variant - 1
+            # what the path knows about the order of (lo, key) and (hi, key)
+            known = {}
+            for k, val in o.state.log:
+                if isinstance(k, tuple) and k[0] == "ord":
+                    known[(k[1], k[2])] = val
+                if isinstance(k, tuple) and k[0] == "cmp" and isinstance(key, I):
+                    pass
+
+            def rel(name):
+                kn = key.name if isinstance(key, Sym) else None
+                if (name, kn) in known:
+                    return [known[(name, kn)]]
+                if (kn, name) in known:
+                    return [-known[(kn, name)]]
+                if isinstance(key, I):
+                    r = ip.rng_get(o.state, Sym(name, "u32"))
+                    outc = set()
+                    for a, b_ in r:
+                        if a < key.v:
+                            outc.add(-1)
+                        if a <= key.v <= b_:
+                            outc.add(0)
+                        if b_ > key.v:
+                            outc.add(1)
+                    return sorted(outc)
+                return [-1, 0, 1]
+
+            for rl, rh in itertools.product(rel(lo), rel(hi)):
+                if shape == "single" and rl != rh:
+                    continue
+                if shape == "range" and rl > rh:
+                    continue  # start <= end
+                want = -1 if rh < 0 else 1 if rl > 0 else 0
+                if got != want:
+                    problems.append("for a %s entry with %s the comparator answers %s, binary search needs %s" % (shape, "entry %s key" % ("<" if rh < 0 else ">" if rl > 0 else "containing the"), ["Less", "Equal", "Greater"][got + 1], ["Less", "Equal", "Greater"][want + 1]))
+    return "; ".join(sorted(set(problems))[:2]) if problems else None
+
+
+def semantic_lookup_sites(prog, rep, failed):
+    """Fallback for L3 sites whose comparator is not the literal `entry.partial_cmp(&key).unwrap()`: interpret a
+    non-generic function that reaches the site and judge the actual closure value at the search call."""
+    from .. import interp as ip
+    from .. import types as ty_
+    from ..interp import AnalysisError
+    from ..worlds import OracleWorld
+
+    results = {}
+
+    class W(OracleWorld):
+        def call(self, m, st, callee, args, term):
+            if callee["path"] == BSEARCH:
+                site_fn = st.frames[-1].body.id
+                sl = args[0]
+                ety = None
+                if isinstance(sl, ip.Ref) and sl.loc[0] == "static":
+                    sty = prog.statics.get(sl.loc[1], {}).get("ty", "")
+                    import re as _re
+
+                    mm = _re.match(r"^\[(.*); \d+\]$", sty)
+                    ety = mm.group(1) if mm else None
+                if ety is None:
+                    fr = st.frames[-1]
+                    a0 = term["args"][0]
+                    lty = fr.body.locals[a0["place"]["l"]]["ty"] if a0.get("k") in ("copy", "move") else ""
+                    import re as _re
+
+                    mm = _re.match(r"^&(?:'[a-z_]+ )?\[(.*)\]$", lty)
+                    ety = mm.group(1) if mm else None
+                if ety is None or not (ety.startswith("(") or "Codepoints" in ety):
+                    # a generic element type: the caller's static decides — look one frame up
+                    for fr2 in reversed(st.frames[:-1]):
+                        t2 = fr2.body.blocks[fr2.bb]["term"]
+                        for a in t2.get("args", []):
+                            if a.get("k") == "static_ref" or (a.get("k") in ("copy", "move")):
+                                pass
+                    raise AnalysisError("element type of the searched slice is not evident (%r)" % (ety,))
+                try:
+                    err = comparator_semantics(prog, args[1], m, st, ety)
+                except AnalysisError as e:
+                    err = "analysis-error: %s" % e
+                n = st.ext.get("nbs", 0) + 1
+                found = st.choose(("bs", n), [True, False])  # (decided before anything is recorded: a fork re-executes)
+                st.ext["nbs"] = n
+                results.setdefault(site_fn, []).append(err)
+                if found:
+                    return ip.ok(ip.Sym(("idx", n), "usize"))
+                return ip.err(ip.Sym(("ins", n), "usize"))
+            return OracleWorld.call(self, m, st, callee, args, term)
+
+        def static_value(self, st, path):
+            return ip.Opq("static", (path,))
+
+        def index_hook(self, st, base, idx):
+            import re as _re
+
+            ety = "?"
+            if isinstance(base, ip.Opq) and base.kind == "static":
+                mm = _re.match(r"^\[(.*); \d+\]$", prog.statics.get(base.data[0], {}).get("ty", ""))
+                ety = mm.group(1) if mm else "?"
+            elif isinstance(base, ip.Opq) and base.kind == "fresh-ref" and isinstance(base.data, tuple):
+                mm = _re.match(r"^\[(.*)\]$", str(base.data[0]))
+                ety = mm.group(1) if mm else "?"
+            return ty_.fresh(prog, ety, ("row", st.fresh()))
+
+        def opaque_field(self, st, v, step):
+            return ip.Top("?")
+
+        def binop_hook(self, st, op, a, b):
+            if op in ("Lt", "Le", "Gt", "Ge", "Eq", "Ne") and (isinstance(a, ip.Top) or isinstance(b, ip.Top)):
+                return ip.Sym(("bounds", op, st.fresh()), "bool")  # bounds checks are C01's business
+            return None
+
+        def len_hook(self, st, a):
+            return ip.Top("usize")
+
+    for b in failed:
+        f = prog.fns.get(b.key)
+        generic = f is None or any(__import__("re").search(r"(^|[^A-Za-z_:])[A-Z]\b", t) for t in f["inputs"])
+        roots = [b]
+        if generic:
+            roots = [c for c in lib_bodies(prog) if any(t["callee"] and t["callee"]["path"] == b.id for _, t in c.calls())]
+        for r in roots[:6]:
+            fr_ = prog.fns.get(r.key)
+            if fr_ is None:
+                continue
+            m = ip.Machine(prog, W(prog))
+            st0 = ip.State()
+            try:
+                m.run(m.start(r.key, ty_.fresh_args(prog, st0, fr_["inputs"]), st0), max_paths=400)
+            except AnalysisError as e:
+                results.setdefault(b.id, []).append("analysis-error: %s" % e)
+    return results
